@@ -366,7 +366,12 @@ func tamper(base string, ch *chain, cs Case) (layout, links string, keyFiles []s
 	return
 }
 
-func libVerify(layout, links string, keyFiles []string, vdir string, inter ...[]byte) error {
+func libVerify(layout, links string, keyFiles []string, vdir string, inter ...[]byte) (err error) {
+	defer func() {
+		if r := recover(); r != nil {
+			err = fmt.Errorf("the library panicked: %v", r)
+		}
+	}()
 	md, err := intoto.LoadMetadata(layout)
 	if err != nil {
 		return err
